@@ -367,7 +367,7 @@ func (e *Enc) callContract(site ssa.Instruction, key string, fc *FuncContract, c
 	e.callOrd[short]++
 	k := e.callOrd[short]
 	pre := e.cur.clone()
-	ctx := &SpecCtx{e: e, heap: e.cur, old: pre, vars: map[string]TV{}, pkg: e.calleePkg(calleeSSA, calleeObj), lets: letsOf(fc), owner: fc}
+	ctx := &SpecCtx{e: e, heap: e.cur, old: pre, vars: map[string]TV{}, pkg: e.calleePkg(calleeSSA, calleeObj), lets: letsOf(fc), owner: fc, callee: true}
 	ctx.ghost = e.instGhosts(fc, fmt.Sprintf("c%d", e.nextID()))
 	for i, n := range names {
 		ctx.vars[n] = TV{args[i], argTypes[i]}
